@@ -46,8 +46,8 @@ theorem sp_primalRows_eq (inp : PrimalIn) :
         pure (inp.c.map (nonnegRow · inp.dummy), [⟨.pos, inp.c.length⟩])
       else do
         let perI ← inp.ids.mapM (sp_perBlock inp)
-        pure (perI.flatMap (·.1) ++ (sumToC inp.alpha.length inp.c (inp.ids.map (ageVector inp.alpha.length inp.c inp.ech)) inp.settings.sumAgeForceEquality inp.dummy).1,
-              perI.flatMap (·.2) ++ (sumToC inp.alpha.length inp.c (inp.ids.map (ageVector inp.alpha.length inp.c inp.ech)) inp.settings.sumAgeForceEquality inp.dummy).2)) := by
+        pure (perI.flatMap (·.1) ++ (sumToC inp.alpha.length inp.c (inp.ids.map (ageVector inp.alpha.length inp.c inp.ech)) inp.settings.sumAgeForceEquality inp.dummy inp.ech).1,
+              perI.flatMap (·.2) ++ (sumToC inp.alpha.length inp.c (inp.ids.map (ageVector inp.alpha.length inp.c inp.ech)) inp.settings.sumAgeForceEquality inp.dummy inp.ech).2)) := by
   rfl
 
 theorem sp_primalRows_degenerate (inp : PrimalIn) (rows : List CRow) (K : List Cone)
@@ -61,9 +61,9 @@ theorem sp_primalRows_ok (inp : PrimalIn) (rows : List CRow) (K : List Cone)
     (h : primalRows inp = .ok (rows, K)) (hd : (inp.ids.filter fun p => !p.nu.isEmpty) ≠ []) :
     ∃ perI, inp.ids.mapM (sp_perBlock inp) = .ok perI ∧
       rows = perI.flatMap (·.1) ++ (sumToC inp.alpha.length inp.c (inp.ids.map (ageVector inp.alpha.length inp.c inp.ech))
-        inp.settings.sumAgeForceEquality inp.dummy).1 ∧
+        inp.settings.sumAgeForceEquality inp.dummy inp.ech).1 ∧
       K = perI.flatMap (·.2) ++ (sumToC inp.alpha.length inp.c (inp.ids.map (ageVector inp.alpha.length inp.c inp.ech))
-        inp.settings.sumAgeForceEquality inp.dummy).2 := by
+        inp.settings.sumAgeForceEquality inp.dummy inp.ech).2 := by
   rw [sp_primalRows_eq] at h
   have hd' : (inp.ids.filter fun p => !p.nu.isEmpty).isEmpty = false := by
     cases hf : (inp.ids.filter fun p => !p.nu.isEmpty) with
